@@ -1295,6 +1295,20 @@ def canon(e):
     return _seqfix(_order_ifs(_simplify(_hoist(_canon(e)))))
 
 
+def _truth_valued(c):
+    """canonical term that is True or False (never another object): a type / attribute test, a comparison, a negation, or a
+    connective of such"""
+    if not isinstance(c, tuple) or not c:
+        return False
+    if c[0] == "call":
+        return c[1] in ("isinstance", "hasattr", "issubclass", "callable")
+    if c[0] in ("is", "not", "<", "<=", "==", "!="):
+        return c[0] in ("is", "not") or True
+    if c[0] in ("and", "or"):
+        return all(_truth_valued(x) for x in c[1:])
+    return False
+
+
 def _canon(e):
     if isinstance(e, ast.Name):
         return e.id
@@ -1427,6 +1441,12 @@ def _canon(e):
         a, b = _assume(a, t, True), _assume(b, t, False)
         if a == b:
             return a
+        # `True if t else b` is `t or b` (and `a if t else False` is `t and a`) when t itself is a truth value
+        if _truth_valued(t):
+            if a == ("const", True, "bool"):
+                return ("or",) + tuple(sorted((t, b), key=repr))
+            if b == ("const", False, "bool"):
+                return ("and",) + tuple(sorted((t, a), key=repr))
         return ("if", t, a, b)
     if isinstance(e, ast.Call):
         fn = e.func
